@@ -321,7 +321,9 @@ pub fn gen_file_c(rng: &mut Rng, l: &L, opts: &Opts, patterns: &mut Vec<String>,
                     _ => ("(", ")"),
                 };
                 let body2 = if od == "(" { body.replace(['(', ')'], " ") } else { body.clone() };
-                text += &format!("{nl}[//]: # {od}{}{cd}{nl}{nl}", body2.replace('\n', " "));
+                // the title may start on the line after the destination
+                let brk = if rng.chance(1, 4) { format!("{nl}  ") } else { " ".to_string() };
+                text += &format!("{nl}[//]: #{brk}{od}{}{cd}{nl}{nl}", body2.replace('\n', " "));
             } else {
                 text += &format!("{indent}{o} {}{nl}", body.replace('\n', " "));
             }
